@@ -2,24 +2,26 @@
 """Copy confirmed sub-agent mutants from /tmp/wt-<prop>/out/<k> into /verif/seeded/<prop>-s<k>/"""
 import json, os, shutil, sys
 HERE = os.path.dirname(os.path.dirname(os.path.abspath(__file__)))
+PFX = os.environ.get('WT_PREFIX', 'wt')
+TAG = os.environ.get('ROUND_TAG', 's')
 for prop in sys.argv[1:]:
-    ev = json.load(open('/tmp/eval-%s.json' % prop))
+    ev = json.load(open('/tmp/eval-%s-%s.json' % (PFX, prop)))
     for k, res in sorted(ev.items()):
-        src = '/tmp/wt-%s/out/%s' % (prop, k)
+        src = '/tmp/%s-%s/out/%s' % (PFX, prop, k)
         confirmed = res.get('demo_clean_rc') == 0 and res.get('demo_patched_rc', 0) != 0 and res.get('suite_same')
         if not confirmed:
             print('NOT confirmed, skipped:', prop, k, res)
             continue
-        dst = os.path.join(HERE, 'seeded', '%s-s%s' % (prop, k))
+        dst = os.path.join(HERE, 'seeded', '%s-%s%s' % (prop, TAG, k))
         os.makedirs(dst, exist_ok=True)
         shutil.copy(os.path.join(src, 'patch.diff'), os.path.join(dst, 'patch.diff'))
-        demo = open(os.path.join(src, 'demo.py')).read().replace('/tmp/wt-%s' % prop, '/repo')
+        demo = open(os.path.join(src, 'demo.py')).read().replace('/tmp/%s-%s' % (PFX, prop), '/repo')
         open(os.path.join(dst, 'demo.py'), 'w').write(demo)
         notes = open(os.path.join(src, 'notes.txt')).read() if os.path.exists(os.path.join(src, 'notes.txt')) else ''
         open(os.path.join(dst, 'notes.txt'), 'w').write(notes)
         meta = {
             'property': prop,
-            'origin': 'independent sub-agent given only the property text and a scratch worktree (round 1)',
+            'origin': 'independent sub-agent given only the property text and a scratch worktree (%s)' % os.environ.get('ROUND_NAME', 'round 1'),
             'needs_to_manifest': notes.strip(),
             'confirmed_by_me': {
                 'patch_applies_on_clean_HEAD': True,
